@@ -29,6 +29,20 @@ def _viol(run, key, what, obj):
     run.violation(key, what, rp)
 
 
+def _control(cfg, wd, flags=()):
+    """Before a compile failure is believed: the toolchain + PCH must still compile a trivial Au/chrono
+    TU (another process may have wiped the PCH cache, or /repo may be mid-edit) - else no verdict."""
+    os.makedirs(wd, exist_ok=True)
+    src = os.path.join(wd, "control_%s.cc" % cfg.name)
+    with open(src, "w") as f:
+        f.write("void control() { au::Quantity<au::Seconds, int> q = au::seconds(1); (void)q; "
+                "std::chrono::seconds s{1}; (void)s; }\n")
+    rc, err = core.syntax_check(cfg, src, list(flags))
+    if rc != 0:
+        raise core.InfraError("control TU does not compile under %s (PCH removed concurrently / tree mid-edit?): %s"
+                              % (cfg, core._first_error(err) or err[-300:]))
+
+
 def _by_name():
     return {d.name: d for d in G.durations() + G.named_durations()}
 
@@ -102,6 +116,11 @@ def run_static(run, cfgs, allD):
     for cfg in cfgs:
         res, failed = psx.run_dump(cfg, recs, os.path.join(run.wd, "dump_" + cfg.name), "c17", "",
                                    chunk=max(20, len(recs) // (core.NCPU * 2) + 1))
+        if failed:   # believe a compile failure only if it reproduces alone, after a control compile
+            _control(cfg, run.wd)
+            res2, failed = psx.run_dump(cfg, [recs[r] for r in sorted(failed)],
+                                        os.path.join(run.wd, "dumpre_" + cfg.name), "c17", "", chunk=1)
+            res.update(res2)
         for rid, diag in sorted(failed.items()):
             kind, d, t = meta[rid]
             if kind != "accept":
@@ -183,6 +202,10 @@ def _build_run(run, cfg, tag, emit, groups, flags, parts=1, failed=None):
 def run_roundtrip(run, cfg, allD, w, full32):
     probes = [core.Probe(i, G.roundtrip_probe(d), "accept") for i, d in enumerate(allD)]
     res, _ = core.run_probes(cfg, probes, os.path.join(run.wd, "rtp_" + cfg.name), "rt")
+    again = [p for p in probes if res[p.pid][0] != "accept"]
+    if again:
+        _control(cfg, run.wd)
+        res.update(core.run_probes(cfg, again, os.path.join(run.wd, "rtp_" + cfg.name), "rtre")[0])
     insts, ivs = [], {}
     for i, d in enumerate(allD):
         if res[i][0] != "accept":
@@ -247,8 +270,13 @@ def run_mixed(run, cfg, durs, pairs, lo8, hi8):
     bad = []
     S, V = _build_run(run, cfg, "mx", emit, [insts[k:k + sz] for k in range(0, len(insts), sz)] or [[]], ["-O1"], failed=bad)
     if bad:
+        _control(cfg, run.wd, ["-O1"])
         again = [x for g in bad for x in g]
         probe([idx[k] for k, _, _ in again], "accept", "mxa")
+        flip = [idx[k] for k, _, _ in again if "accept" not in verdict[idx[k]].values()]
+        if flip:   # predicted-accept yet rejected in every form: decide once more after a control compile
+            _control(cfg, run.wd)
+            probe(flip, "accept", "mxf")
         ok = [x for x in again if all(v == "accept" for v in verdict[idx[x[0]]].values())]
         if ok:
             m = max(1, min(core.NCPU * 2, len(ok)))
@@ -256,6 +284,10 @@ def run_mixed(run, cfg, durs, pairs, lo8, hi8):
             S, V = S + S2, V + V2
     for p in todo:
         verdict.setdefault(p, {f: "accept" for f in FORMS4})
+    suspect = [p for p in pairs if len(set(verdict[p].values())) > 1]
+    if suspect:   # a form-dependent verdict becomes a violation below: re-decide it after a control compile
+        _control(cfg, run.wd)
+        probe(suspect, "accept", "mxc")
     acc, rej, mism = [], [], 0
     for (i, j) in pairs:
         a, b = durs[i], durs[j]
